@@ -655,6 +655,8 @@ class Nodes:
             typed_value = value
         except TypeError:
             typed_value = value
+        except RecursionError:
+            typed_value = value
         return typed_value
 
     @staticmethod
